@@ -151,39 +151,39 @@ struct MLink {
 /// Independent model of the sender's "which uplink carried the unique copy"
 /// memory: last unique routing per slot (seq mod 16384), 5 s validity.
 #[derive(Default)]
-struct Owners {
-    slot: BTreeMap<u32, (u32, u64, u64, usize)>, // slot -> (seq, conn_id, t, op index)
-    purged: BTreeSet<u32>,
+pub struct Owners {
+    pub slot: BTreeMap<u32, (u32, u64, u64, usize)>, // slot -> (seq, conn_id, t, op index)
+    pub purged: BTreeSet<u32>,
 }
 
 impl Owners {
-    fn route(&mut self, seq: u32, conn: u64, t: u64, op: usize) {
+    pub fn route(&mut self, seq: u32, conn: u64, t: u64, op: usize) {
         self.slot.insert(seq % 16_384, (seq, conn, t, op));
         self.purged.remove(&seq);
     }
-    fn routed_at_op(&self, seq: u32) -> Option<usize> {
+    pub fn routed_at_op(&self, seq: u32) -> Option<usize> {
         match self.slot.get(&(seq % 16_384)) {
             Some((s, _, _, op)) if *s == seq => Some(*op),
             _ => None,
         }
     }
-    fn owner(&self, seq: u32, now: u64) -> Option<u64> {
+    pub fn owner(&self, seq: u32, now: u64) -> Option<u64> {
         match self.slot.get(&(seq % 16_384)) {
             Some((s, c, t, _)) if *s == seq && now.saturating_sub(*t) <= 5_000 => Some(*c),
             _ => None,
         }
     }
     /// age of the record relative to expiry, for the non-triviality classes
-    fn age(&self, seq: u32, now: u64) -> Option<u64> {
+    pub fn age(&self, seq: u32, now: u64) -> Option<u64> {
         match self.slot.get(&(seq % 16_384)) {
             Some((s, _, t, _)) if *s == seq => Some(now.saturating_sub(*t)),
             _ => None,
         }
     }
-    fn displaced(&self, seq: u32) -> bool {
+    pub fn displaced(&self, seq: u32) -> bool {
         matches!(self.slot.get(&(seq % 16_384)), Some((s, _, _, _)) if *s != seq)
     }
-    fn purge(&mut self, conn: u64) {
+    pub fn purge(&mut self, conn: u64) {
         for v in self.slot.values() {
             if v.1 == conn {
                 self.purged.insert(v.0);
